@@ -59,6 +59,8 @@ theorem execSimple_erase (s : State) (fields : List String) (here : Option (List
     | unalias => exact erase_of_comm (f := fun s => execUnalias s args) s (execUnalias_erase s args)
     | set => exact erase_of_comm (f := fun s => execSet s args) s (execSet_erase s args)
     | cat => exact execCat_erase _ _
+    | closein =>
+      cases hsh : s.shared <;> simp [execUtil, execClose, State.erase, State.stdin, State.setStdin, hsh]
     | echo => rfl
     | unknown => rfl
 
